@@ -114,16 +114,22 @@ impl<'input> LambdaASTLexer<'input> {
         start_offset: usize,
         condition: impl Fn(char) -> bool,
     ) -> &'input str {
-        let mut end_pos = start_offset;
+        // end_pos is the position right after the last accepted char, which could be multi-byte;
+        // the first char has been already consumed by the caller
+        let first_char_len = self.input[start_offset..]
+            .chars()
+            .next()
+            .map_or(0, char::len_utf8);
+        let mut end_pos = start_offset + first_char_len;
         while let Some((pos, ch)) = self.chars.peek() {
             if !condition(*ch) {
                 break;
             }
-            end_pos = *pos;
+            end_pos = *pos + ch.len_utf8();
             self.chars.next();
         }
 
-        &self.input[start_offset..end_pos + 1]
+        &self.input[start_offset..end_pos]
     }
 
     fn try_parse_first_token(&mut self) -> Spanned<Token<'input>, usize, LexerError> {
